@@ -10,7 +10,7 @@ _cfgs="rel relcheck stdmin nostd nostdcheck"
 # the true dev profile (opt-level 0) is slow for the reference model: thorough tier only
 [ "$tier" = "thorough" ] && _cfgs="$_cfgs dev"
 for cfg in $_cfgs; do
-  ( if [ "$cfg" = nostd ]; then build $cfg c16 c06; else build $cfg c16; fi; echo $? > "$ROOT/target/c16-build-$cfg.rc" ) &
+  ( if [ "$cfg" = nostd ]; then build $cfg c16 c06 c14; elif [ "$cfg" = stdmin ]; then build $cfg c16; else build $cfg c16 c14; fi; echo $? > "$ROOT/target/c16-build-$cfg.rc" ) &
 done
 wait
 for cfg in $_cfgs; do
@@ -33,6 +33,18 @@ if [ -x "$(bindir nostd)/c06" ] && [ "$(cat "$ROOT/target/c16-build-nostd.rc" 2>
 else
   [ $_rc -lt 2 ] && _rc=2
 fi
+# the documented-failure set (must panic / must be None / must succeed) in every profile and std/no_std
+# configuration: a failure behaviour that differs between configurations is a result that differs
+for cfg in $_built; do
+  [ "$cfg" = stdmin ] && continue
+  if [ -x "$(bindir $cfg)/c14" ]; then
+    NBMC_AS=C16 NBMC_NO_PYREF=1 NBMC_PART=c14-$cfg NBMC_CONFIG=$cfg "$(bindir $cfg)/c14" quick | grep -v "^C16\[" ; _r=${PIPESTATUS[0]}
+    [ $_r -gt $_rc ] && _rc=$_r
+    _parts="$_parts c14-$cfg"
+  else
+    [ $_rc -lt 2 ] && _rc=2
+  fi
+done
 # byte-equality of the transcripts (first differing line is the replay)
 _ref=""
 _cmp_ok=true
